@@ -188,6 +188,16 @@ func locOne(input []byte, tbl, parse bool) locOut {
 		for i := 1; i < n; i += 2 {
 			chk(i)
 		}
+		// a short earlier input whose last answered offset lies before most offsets of this one
+		guarded(func() { _, _ = tkz.Tokenize([]byte("\n")) })
+		_ = tkz.VerifLoc(1)
+		guarded(func() { _, _ = tkz.Tokenize(input) })
+		for i := n - 1; i >= 0; i -= 3 {
+			chk(i)
+		}
+		for i := 0; i < n; i++ {
+			chk(i)
+		}
 	}
 	// the context variant is a second copy of the loop: same spans, same error location
 	{
